@@ -268,7 +268,18 @@ def run_harness(h: Harness, *, tier: str, known_active: set[str], seed: int = 0)
         try:
             outcome, res = _engine.run_once(body, eng)
         except Exception as e:
-            outcome, res = f'error:{type(e).__name__}: {e}\n{traceback.format_exc(limit=14)}', None
+            where = _own_unbound_variable(e)
+            if where is not None:
+                # the verified code itself reads a variable it never assigned on this (feasible) path: a crash of the
+                # real function, decided -- not a limit of the checker
+                eng.obligations.append(_engine.Obligation(
+                    name=f'{h.id}.no_unbound_variable', path=eng.path_no, status='refuted', backend='cpython', ms=0.0,
+                    model=eng.current_model(), decisions=[c for _, c, k in eng.taken if k == 'n'],
+                    note=f'{type(e).__name__}: {e} at {where}'))
+                outcome, res = 'done', ('crash', type(e).__name__)
+                eng.no_crosscheck = True
+            else:
+                outcome, res = f'error:{type(e).__name__}: {e}\n{traceback.format_exc(limit=14)}', None
         for i in range(len(ch), len(eng.taken)):
             n, c, _k = eng.taken[i]
             for alt in range(n):
@@ -367,6 +378,23 @@ def run_harness(h: Harness, *, tier: str, known_active: set[str], seed: int = 0)
         sources=sources, samples=samples, truncated=truncated)
 
 
+def _own_unbound_variable(e: BaseException):
+    """'file:line' if `e` is a NameError/UnboundLocalError raised by a statement of the verified code itself (the
+    innermost frame belongs to a file of the repository under verification), else None."""
+    if not isinstance(e, NameError):            # UnboundLocalError is a NameError
+        return None
+    tb = e.__traceback__
+    if tb is None:
+        return None
+    while tb.tb_next is not None:
+        tb = tb.tb_next
+    fn = tb.tb_frame.f_code.co_filename
+    root = os.path.realpath(_loader.repo_root())
+    if os.path.realpath(fn).startswith(os.path.join(root, 'kopf') + os.sep):
+        return f'{os.path.relpath(os.path.realpath(fn), root)}:{tb.tb_lineno} in {tb.tb_frame.f_code.co_name}'
+    return None
+
+
 def _brief(model):
     s = repr(model)
     return s if len(s) < 300 else s[:297] + '...'
@@ -380,5 +408,8 @@ def replay(h: Harness, model: dict, decisions: list, known_active: set[str]):
     try:
         outcome, res = _engine.run_once(body, eng)
     except Exception as e:
+        where = _own_unbound_variable(e)
+        if where is not None:
+            return 'done', ('crash', type(e).__name__), eng.conc_results + [(f'{h.id}.no_unbound_variable', False)]
         return f'error:{type(e).__name__}: {e}', None, []
     return outcome, evaluate(None, res), eng.conc_results
